@@ -167,6 +167,30 @@ def run(ctx):
         recs.append({"kind": "conn", "block": list(bytes(base)), "seg": seg, "parsed": parse_text(buf.getvalue(), f"conn{si}"),
                      "cfg": default.config_version, "log": default.log_version, "connected": bool(ok)})
         meta.append(f"traffic log seg={seg}")
+    # a log with an abandoned first handshake (some segments of ANOTHER block transferred, then the client starts
+    # over) followed by a complete one: the reassembled block is the completed transfer's
+    for si in range(1 if ctx.quick else 6):
+        first = bytearray(default.bytes)
+        second = bytearray(default.bytes)
+        for b_ in (first, second):
+            for _ in range(200):
+                p = rng.randrange(310, 1024)
+                b_[p] = rng.randrange(256)
+        with capture_log(logging.DEBUG) as buf:
+            peer1 = SimPeer(snapshot=default, seg=39)
+            peer1.sim.structure.set_status_block(bytes(first))
+            with ThreadedSession(peer=peer1) as s1:
+                for _ in range(3000):
+                    s1.pump(1)
+                    if len(getattr(s1.spa.struct, "_status_block_segments", None) or []) >= rng.choice([3, 8, 15]) or s1.facade.is_connected:
+                        break
+            peer2 = SimPeer(snapshot=default, seg=39)
+            peer2.sim.structure.set_status_block(bytes(second))
+            with ThreadedSession(peer=peer2) as s2:
+                ok = s2.wait_connected(3000)
+        recs.append({"kind": "conn", "block": list(bytes(second)), "seg": 39, "parsed": parse_text(buf.getvalue(), f"conn-restart{si}"),
+                     "cfg": default.config_version, "log": default.log_version, "connected": bool(ok)})
+        meta.append("traffic log with an abandoned first handshake")
     # ---- 3. shipped snapshots -----------------------------------------------------------
     files = sorted(glob.glob(os.path.join(env.REPO, "tests", "snapshots", "*.snapshot")))
     nsnap = 0
